@@ -196,7 +196,7 @@ class ConfigMatrixPart:
                     if o is not None:
                         results.setdefault(l, {})[c["name"]] = o
                 st = out[len(lines)] if len(out) > len(lines) and out[len(lines)] else ""
-                cfginfo[c["name"]].update(cases=len(lines), run_wall_s=round(wall, 1), harness_stats=st.replace("stats ", ""),
+                cfginfo[c["name"]].update(cases=len(lines), run_wall_s=round(wall, 1), harness_stats_of_last_process=st.replace("stats ", ""),
                                           sanitizer_or_assert_aborts=len(crashes))
                 # the harness reports how it was really compiled: cross-check against the requested configuration
                 want = dict(ndebug="0" if c["debug"] else "1", async_stacks="1" if c["debug"] else "0", visitations=str(c["visit"]),
@@ -204,7 +204,7 @@ class ConfigMatrixPart:
                 got = dict(kv.split("=") for kv in st.split()[1:]) if st.startswith("stats") else {}
                 bad = {k: (v, got.get(k)) for k, v in want.items() if got.get(k) != v}
                 if not got:
-                    cfginfo[c["name"]]["harness_stats"] = "none (the harness gave up after too many aborts)"
+                    cfginfo[c["name"]]["harness_stats_of_last_process"] = "none (the harness gave up after too many aborts)"
                 elif bad:
                     verdict.add(f"cfg[{c['name']}]: harness not compiled as requested", f"requested vs reported: {bad}",
                                 dict(stream="cfg", config=c["name"], stats=st), found_input=False)
